@@ -13,6 +13,8 @@ from __future__ import annotations
 
 import numpy as np
 
+from runtime.common import robust_central
+
 P = []  # (name, tags, leaf_shapes, prog)
 
 
@@ -472,7 +474,8 @@ def run_numpy(f, vals):
 
 
 def numeric_grads(f, vals, seed=None, h=1e-3):
-    """d sum(L * seed) / d leaf_i by 4th-order central differences on the NumPy run."""
+    """d sum(L * seed) / d leaf_i by 4th-order central differences on the NumPy run; elements where the oracle is unreliable
+    (step-size dependent: a kink nearby) are masked and not compared."""
 
     def scalar(vs):
         out, _ = run_numpy(f, vs)
@@ -482,12 +485,14 @@ def numeric_grads(f, vals, seed=None, h=1e-3):
     grads = []
     for i, v in enumerate(vals):
         g = np.zeros(np.shape(v))
+        bad = np.zeros(np.shape(v), dtype=bool)
         for idx in np.ndindex(*np.shape(v)):
             def ev(d):
                 vs = [np.array(x, dtype=np.float64, copy=True) for x in vals]
                 vs[i][idx] += d
                 return scalar(vs)
 
-            g[idx] = (-ev(2 * h) + 8 * ev(h) - 8 * ev(-h) + ev(-2 * h)) / (12 * h)
-        grads.append(g)
+            g[idx], ok = robust_central(ev, h)
+            bad[idx] = not ok
+        grads.append(np.ma.masked_array(g, mask=bad) if bad.any() else g)
     return grads
